@@ -237,7 +237,7 @@ func init() {
 		ID: "C03", Level: "exploration",
 		Rule:        "per case a seeded document in one of 5 Go representations and options; 3 pairs of datum-directed sub-expressions A, B (matches, nested connectives, quantifiers; 30% broken paths so that T, F and E are all common); A, B and 10 composites (and, or, not, not not, both De Morgan pairs, two nested forms) are evaluated by separately created evaluators; oracle: the composite's outcome equals the statement's table applied to the OBSERVED outcomes of A and B (relational, no model). operands whose outcome the reference marks order-dependent are skipped. non-trivial = both operands evaluated; distinct by (A, B, datum shape)",
 		Assumptions: []string{"outcomes are compared as classes true / false / error (the boolean accompanying an error is C09's subject)"},
-		NumCases:    func(tier string) int { return tierN(tier, 8000, 400000) },
+		NumCases:    func(tier string) int { return tierN(tier, 8000, 150000) },
 		Run:         c03Run,
 		Required: func(tier string) []string {
 			l := []string{"quantified_operand", "collision_datum_cases", "cell:not/T", "cell:not/F", "cell:not/E"}
